@@ -1538,6 +1538,128 @@ def simpson_tests(ctx):
 
 
 # ------------------------------------------------------------------------------------------------
+# scalar arithmetic with a per-channel scalar that mixes time dependent and constant entries (test level)
+# ------------------------------------------------------------------------------------------------
+
+MIX_TIME = ['g*t', '1 + t', 't/2 + g', '2 - t/4', '1 + g*t']
+MIX_CONST = ['g', '3', '0.5', 'g + 1', '-2']
+
+
+def mixed_scalar_recipe(rng) -> dict:
+    atom = rng.choice(['table', 'table', 'amulti', 'point', 'table3'])
+    chans = {'table': ['I', 'M'], 'amulti': ['X', 'Y'], 'point': ['I', 'M'], 'table3': ['I', 'M', 'K']}[atom]
+    op = rng.choice(['*', '*', '+', '-', '/'])
+    side = 'lhs' if op in '*/' and rng.random() < 0.8 or op == '/' else rng.choice(['lhs', 'rhs'])
+    order = list(chans)
+    rng.shuffle(order)
+    scalar = [[order[0], '1 + t' if op == '/' else rng.choice(MIX_TIME)], [order[1], rng.choice(MIX_CONST)]]
+    if len(order) > 2 and rng.random() < 0.6:
+        scalar.append([order[2], rng.choice(MIX_CONST + MIX_TIME[:2] if op != '/' else MIX_CONST)])
+    rng.shuffle(scalar)
+    return {'atom': atom, 'op': op, 'pt_side': side, 'scalar': scalar, 'wrap': rng.choice(['plain', 'plain', 'seq', 'rep', 'map']),
+            'params': {'T': rng.choice([1, 2, 4]), 'a': rng.choice([2, 0.5, -1]), 'g': rng.choice([0.5, 2, -0.25, 1.5])}}
+
+
+def mixed_scalar_build(rc: dict):
+    import qupulse.pulses as qp
+    from qupulse.pulses.arithmetic_pulse_template import ArithmeticPulseTemplate
+    a = rc['atom']
+    if a in ('table', 'table3'):
+        ent = {'I': [(0, 0.), ('T', 'a', 'linear')], 'M': [(0, 1.), ('T', 1.)]}
+        if a == 'table3':
+            ent['K'] = [(0, 'a'), ('T/2', 0.25, 'linear'), ('T', 0.25)]
+        atom = qp.TablePT(ent)
+    elif a == 'point':
+        atom = qp.PointPT([(0, [0., 1.]), ('T', ['a', 0.5], 'linear')], ['I', 'M'])
+    else:
+        atom = qp.AtomicMultiChannelPT(qp.FunctionPT('a*t', 'T', channel='X'), qp.FunctionPT('1 + t', 'T', channel='Y'))
+    scalar = dict((c, e) for c, e in rc['scalar'])
+    pt = ArithmeticPulseTemplate(atom, rc['op'], scalar) if rc['pt_side'] == 'lhs' else ArithmeticPulseTemplate(scalar, rc['op'], atom)
+    w = rc['wrap']
+    if w == 'seq':
+        pt = qp.SequencePT(pt, qp.ConstantPT(1, {c: 0.5 for c in atom.defined_channels}), pt)
+    elif w == 'rep':
+        pt = qp.RepetitionPT(pt, 2)
+    elif w == 'map' and 'g' in pt.parameter_names:
+        pt = qp.MappingPT(pt, parameter_mapping={'g': 'h + 1'}, allow_partial_parameter_mapping=True)
+    return pt
+
+
+def mixed_scalar_check(rc: dict) -> List[str]:
+    """symbolic integral of every channel against composite Simpson integration of the instantiated program (exact up to
+    rounding for the constant channels and for * + - with scalars affine in t: the integrand is a polynomial of degree
+    <= 2 per piece)"""
+    import numpy as np
+    from qupulse.program.loop import to_waveform
+    pt = mixed_scalar_build(rc)
+    params = dict(rc['params'])
+    if 'h' in pt.parameter_names:
+        params['h'] = params.pop('g') - 1
+    params = {k: v for k, v in params.items() if k in pt.parameter_names}
+    out = []
+    try:
+        integ = {ch: float(e.evaluate_in_scope(dict(params))) for ch, e in pt.integral.items()}
+    except Exception as exc:  # noqa
+        if rc['op'] == '/':
+            # sympy's integrator gives up on some rational integrands p(t)/(1 + t) (TypeError inside the polynomial ring code,
+            # also on the unchanged tree): no symbolic value, nothing to compare
+            return []
+        return ['integral raises %s: %s' % (core.classify_exception(exc), str(exc)[:100])]
+    prog = pt.create_program(parameters=params)
+    wf = to_waveform(prog)
+    T = float(wf.duration)
+    brk = sorted({float(t) for t in ptgen.program_breaks(prog, limit=10 ** 5)} | {0.0, T})
+    for ch in sorted(integ):
+        num = 0.0
+        for a, b in zip(brk, brk[1:]):
+            if b - a <= 0:
+                continue
+            m = 100
+            ts = np.linspace(a, b, 2 * m + 1)
+            ts[-1] = np.nextafter(b, a)
+            ys = wf.get_sampled(ch, ts)
+            h = (b - a) / (2 * m)
+            num += h / 3 * (ys[0] + ys[-1] + 4 * ys[1:-1:2].sum() + 2 * ys[2:-1:2].sum())
+        if abs(num - integ[ch]) > 1e-7 * max(1.0, abs(num), abs(integ[ch])):
+            out.append('integral[%s] evaluates to %r, composite Simpson integration of the instantiated program gives %r'
+                       % (ch, integ[ch], float(num)))
+    return out
+
+
+def mixed_scalar_report(ctx, rc: dict, count=True) -> bool:
+    try:
+        fs = mixed_scalar_check(rc)
+    except Exception as exc:  # noqa -- e.g. a division by a scalar with a zero: not an accepted input
+        ctx.count('mixed-scalar:error:' + core.classify_exception(exc))
+        return True
+    if count:
+        ctx.case('mixed-scalar:' + repr(sorted(rc.items(), key=lambda kv: kv[0])), nontrivial=True)
+        ctx.count('mixed-scalar')
+        ctx.count('mixed-scalar:op' + rc['op'])
+    if fs:
+        sc = '{%s}' % ', '.join('%s: %s' % (c, e) for c, e in rc['scalar'])
+        expr = ('pt %s %s' % (rc['op'], sc)) if rc['pt_side'] == 'lhs' else ('%s %s pt' % (sc, rc['op']))
+        ctx.violation('%s [ArithmeticPT %s over a %s template, %s, params %s]' % (fs[0], expr, rc['atom'], rc['wrap'], rc['params']),
+                      {'kind': 'c07-mixed-scalar', 'recipe': rc})
+        return False
+    return True
+
+
+def mixed_scalar_tests(ctx):
+    rng = ctx.fork('mixed-scalar')
+    bad = 0
+    n = ctx.n(70, 900)
+    for _ in range(n):
+        if not mixed_scalar_report(ctx, mixed_scalar_recipe(rng)):
+            bad += 1
+    ctx.disagreements += bad
+    ctx.extra.setdefault('tests2', {'what': 'ArithmeticPT over a multi channel atomic template with a per-channel scalar mapping that '
+                                            'mixes time dependent (affine in t) and constant entries: symbolic integral of every '
+                                            'channel vs composite Simpson integration of the sampled real program (relative 1e-7). '
+                                            'Test-level evidence, not covered by the Lean model.', 'cases': n, 'failures': bad})
+
+
+# ------------------------------------------------------------------------------------------------
 # python range() against the model's range arithmetic
 # ------------------------------------------------------------------------------------------------
 
@@ -1575,7 +1697,7 @@ def run(ctx: core.Ctx):
                 'multi channel): quantities of the remaining channels and pad_to against the REAL program; (4c) half of the random '
                 'trees outside the PF-14 class (no ArithmeticPT / ParallelChannelPT) with a scope entry literally called t '
                 '(a parameter / loop index / mapped name renamed to t, or an extra value) plus 32 hand-made time dependent '
-                'function templates next to a wait / level / index / count / mapping called t; (5) shared objects / query history: one atom OBJECT (every atomic class, hand-made and '
+                'function templates next to a wait / level / index / count / mapping called t; (4d, test level) ArithmeticPT over a multi channel atomic template with a per-channel scalar mapping mixing time dependent (affine in t) and constant entries, all four operators and both operand orders, plain / sequence / repetition / mapping: symbolic integral of every channel vs composite Simpson integration of the real program; (5) shared objects / query history: one atom OBJECT (every atomic class, hand-made and '
                 'random) used by several templates (two loops with different ranges, parallel channel, repetition, mapping, '
                 'sequence, arithmetic, stand-alone), integral / initial_values / final_values / pad_to queried in varying '
                 'orders and repeatedly, result dicts mutated by the caller in between: every answer must equal the answer of a '
@@ -1625,6 +1747,7 @@ def run(ctx: core.Ctx):
             report(ctx, rec, diffs, viols, known)
     shared_stream(ctx, ctx.n(120, 3000))
     simpson_tests(ctx)
+    mixed_scalar_tests(ctx)
     replay_known(ctx)
 
 
@@ -1652,6 +1775,8 @@ def replay(ctx: core.Ctx, rec: dict, from_corpus: bool = False) -> bool:
         sub.violations = ctx.violations
         simpson_tests(sub)
         return not ctx.violations
+    if rec.get('kind') == 'c07-mixed-scalar':
+        return mixed_scalar_report(ctx, rec['recipe'], count=from_corpus)
     if rec.get('kind') == 'c07-shared':
         outs = evaluate_scenarios(ctx, [{'scenario': rec['scenario'], 'seed': 0}])
         return handle_scenarios(ctx, outs, count=from_corpus)
